@@ -572,6 +572,34 @@ fn body_shifts<const B: usize, const L: usize>(c: &Case, rec: &mut Rec) -> R {
     shift_ty!(rec, a, n, u16, &rl, &rr);
     shift_ty!(rec, a, n, u32, &rl, &rr);
     shift_ty!(rec, a, n, u64, &rl, &rr);
+    // negative amounts of the signed amount types: the operators forward `rhs as usize`
+    // (sign-extended, i.e. a huge amount), so the reference is the inherent method at that amount
+    {
+        macro_rules! neg_ty {
+            ($t:ident) => {
+                if n > 0 {
+                    let t: $t = (n.min(<$t>::MAX as u64) as $t).wrapping_neg();
+                    if t < 0 {
+                        let (nl, nr) = (catch(|| a.wrapping_shl(t as usize)), catch(|| a.wrapping_shr(t as usize)));
+                        rec.class("amount_negative");
+                        agree(rec, concat!("Shl<", stringify!($t), ">(negative)"), catch(|| a << t), &nl)?;
+                        agree(rec, concat!("Shl<&", stringify!($t), ">(negative)"), catch(|| a << &t), &nl)?;
+                        agree(rec, concat!("ShlAssign<", stringify!($t), ">(negative)"), catch(|| { let mut x = a; x <<= t; x }), &nl)?;
+                        agree(rec, concat!("ShlAssign<&", stringify!($t), ">(negative)"), catch(|| { let mut x = a; x <<= &t; x }), &nl)?;
+                        agree(rec, concat!("Shr<", stringify!($t), ">(negative)"), catch(|| a >> t), &nr)?;
+                        agree(rec, concat!("Shr<&", stringify!($t), ">(negative)"), catch(|| a >> &t), &nr)?;
+                        agree(rec, concat!("ShrAssign<", stringify!($t), ">(negative)"), catch(|| { let mut x = a; x >>= t; x }), &nr)?;
+                        agree(rec, concat!("ShrAssign<&", stringify!($t), ">(negative)"), catch(|| { let mut x = a; x >>= &t; x }), &nr)?;
+                    }
+                }
+            };
+        }
+        neg_ty!(isize);
+        neg_ty!(i8);
+        neg_ty!(i16);
+        neg_ty!(i32);
+        neg_ty!(i64);
+    }
     shift_ty!(rec, a, n, isize, &rl, &rr);
     shift_ty!(rec, a, n, i8, &rl, &rr);
     shift_ty!(rec, a, n, i16, &rl, &rr);
@@ -1176,11 +1204,11 @@ fn main() {
     selftest();
     let spec = PropSpec {
         id: "C20",
-        rule_text: "Differential inside the library: reference = inherent Uint method (or plain ==,<,>; limb-wise &|^ and a byte-reversal oracle computed by the harness), subject = every facade. Rules: ops (optional impls with a primitive operand - Uint op u64/u128 for + - * / % & | ^ and PartialEq/PartialOrd with u64/u128 - probed by autoref dispatch at 10 widths and compared with the integers when a tree has them; six shapes of + - * / % & | ^, Neg/Not val/ref, Sum/Product over value and reference iterators incl. empty), shifts (<< >> value/ref/assign/ref-assign for usize,u8,u16,u32,u64,isize,i8,i16,i32,i64 with non-negative amounts and for Uint amounts that fit usize or are >= 2^64 with a small low limb (reference: the inherent method at the amount saturated to usize::MAX); Bits shift operators and forwarded shift/rotate methods; CheckedShl/Shr, WrappingShl/Shr, PrimInt rotate/signed/unsigned shifts), bits (all other forwarded Bits methods, constants, From/Into, Default, Eq/Hash, FromStr, from_str_radix, byte constructors, Index, Not, & | ^ shapes; Zeroize), num_traits (all non-shift impls incl. default methods with integer targets), num_integer (13 implemented methods + gcd_lcm + divides), subtle (ct_eq/ne/gt/lt, select/assign/swap, conditional_negate, bit_ct). Inputs: operand pairs from 9 classes (independent boundary-alphabet values, b=2^B-a+{-1,0,1}, a==b, b==0, a==0, one-limb b, b=a+-1, two limbs changed in opposite directions, both shifted down), amounts from index_around(BITS,70) plus integer-type truncation boundaries and huge values, byte strings around the canonical encodings, digit strings in radix 0..=64 and beyond. Non-trivial: the case discriminates, i.e. at least one plausible wrong forward (wrapping/checked/saturating sibling, swapped operands, div<->rem, shl<->shr, add<->sub, and<->or<->xor, rotate left<->right, le<->be, truncated amount, signed<->unsigned conversion ...) gives a different result than the correct inherent method on this input; per-kind counts are the `disc:*` classes.",
+        rule_text: "Differential inside the library: reference = inherent Uint method (or plain ==,<,>; limb-wise &|^ and a byte-reversal oracle computed by the harness), subject = every facade. Rules: ops (optional impls with a primitive operand - Uint op u64/u128 for + - * / % & | ^ and PartialEq/PartialOrd with u64/u128 - probed by autoref dispatch at 10 widths and compared with the integers when a tree has them; six shapes of + - * / % & | ^, Neg/Not val/ref, Sum/Product over value and reference iterators incl. empty), shifts (<< >> value/ref/assign/ref-assign for usize,u8,u16,u32,u64,isize,i8,i16,i32,i64 with non-negative amounts, with negative amounts of the signed types (reference: the inherent method at `rhs as usize`, which is what the operator impls forward) and for Uint amounts that fit usize or are >= 2^64 with a small low limb (reference: the inherent method at the amount saturated to usize::MAX); Bits shift operators and forwarded shift/rotate methods; CheckedShl/Shr, WrappingShl/Shr, PrimInt rotate/signed/unsigned shifts), bits (all other forwarded Bits methods, constants, From/Into, Default, Eq/Hash, FromStr, from_str_radix, byte constructors, Index, Not, & | ^ shapes; Zeroize), num_traits (all non-shift impls incl. default methods with integer targets), num_integer (13 implemented methods + gcd_lcm + divides), subtle (ct_eq/ne/gt/lt, select/assign/swap, conditional_negate, bit_ct). Inputs: operand pairs from 9 classes (independent boundary-alphabet values, b=2^B-a+{-1,0,1}, a==b, b==0, a==0, one-limb b, b=a+-1, two limbs changed in opposite directions, both shifted down), amounts from index_around(BITS,70) plus integer-type truncation boundaries and huge values, byte strings around the canonical encodings, digit strings in radix 0..=64 and beyond. Non-trivial: the case discriminates, i.e. at least one plausible wrong forward (wrapping/checked/saturating sibling, swapped operands, div<->rem, shl<->shr, add<->sub, and<->or<->xor, rotate left<->right, le<->be, truncated amount, signed<->unsigned conversion ...) gives a different result than the correct inherent method on this input; per-kind counts are the `disc:*` classes.",
         assumptions: vec![
             "the inherent methods are the reference (decided independently by C01-C13); a defect shared by facade and inherent method is invisible here by construction",
             "x86-64 little-endian target only (to_ne/from_ne = le, to_be/from_be = swap_bytes)",
-            "PrimInt::pow with an exponent that does not fit the width may panic or must equal a^exp mod 2^BITS by inherent multiplication; excluded: swap_bytes/from_be/to_be for BITS % 8 != 0; negative amounts for signed shift operators",
+            "PrimInt::pow with an exponent that does not fit the width may panic or must equal a^exp mod 2^BITS by inherent multiplication; excluded: swap_bytes/from_be/to_be for BITS % 8 != 0",
             "not asserted (ambiguous mapping): ToPrimitive::to_f32/to_f64 and FromPrimitive::from_f32/from_f64 defaults, NumCast from floats and from Uint values above u128::MAX, Integer::next_multiple_of/prev_multiple_of defaults",
             "harness profile has debug-assertions and overflow-checks on",
         ],
@@ -1202,7 +1230,6 @@ fn main() {
                 "excluded_inputs".into(),
                 json!([
                     "PrimInt::swap_bytes / from_be / to_be for BITS % 8 != 0 (documented as not well defined)",
-                    "negative amounts for the signed shift operator impls",
                     "(none for shift amounts: Uint-typed amounts >= 2^64 are compared at the saturated amount)"
                 ]),
             );
